@@ -292,6 +292,10 @@ def run(ck):
             if ok:
                 par = H.parents(pc).get(id(site['node']))
                 ok = par is not None and par.get('k') == 'MCall' and H.is_call_to(par['recv'], 'extract_static_string')
+            if not ok and plain:
+                # `let s = extract_static_string(..)?; s.parse::<Color>()`: the same string, bound first
+                srcs = [H.strip_refs(o) for o in H.origins(pc, recv)]
+                ok = bool(srcs) and all(H.is_call_to(o, 'extract_static_string') for o in srcs)
             ck.ob('R19.2', 'string-parsed-untransformed', ok, L.loc(c),
                   'the static string from extract_static_string() is parsed as is' if ok else 'the colour string is transformed before parsing: %s' % pp(recv, maxlen=60))
         errs = [x for x in H.calls_in(pc['body']) if H.is_call_to(x, 'Diagnostic::error')]
